@@ -11,7 +11,10 @@ META = {
             'self-move): resources in live handles plus queue are exactly 0..size-1 each once (so at most size are held, no resource is in two handles or in a '
             'handle and the queue), acquire blocks iff all are held, and -- given the documented precondition that all handles were returned -- the pool '
             'destructor dequeues and destroys every resource exactly once (otherwise it blocks).  The model is tied to /repo by running the real '
-            'ResourcePool on operation sequences with per-resource construction/destruction counters and comparing every handle snapshot with the model.',
+            'ResourcePool on operation sequences with per-resource construction/destruction counters and comparing every handle snapshot with the model.  '
+            'Several pools of one T: a multi-pool model in which handles carry pool_ (Model/ResPoolMultiModel.v) is proved to refine the single-pool model pool by '
+            'pool (a cross-pool move assignment = ~Resource in the old pool + move construction in the new one), so the bounds hold for each pool whatever '
+            'the other pools do; tied by two-pool operation sequences (every handle\'s resource_ and pool_, both queue sizes).',
     'note': 'Trusted: Coq kernel; harness/h_respool.cpp; the queue specification as a description of moodycamel::BlockingConcurrentQueue '
             '(linearizable enqueue / wait_dequeue). No axioms (Print Assumptions: closed).',
 }
